@@ -579,7 +579,7 @@ def gen_parser(out: List[str], skel: Dict[str, str]) -> None:
         if f is None:
             raise Broken(f"translator(cli): Parser.{name} not found")
         skel[f"parser.py:Parser.{name}"] = skeleton_digest(f)
-    skel["parser.py:Parser.__init__"] = skeleton_digest(init)
+    skel["parser.py:Parser.__init__"] = skeleton_digest(init, [lnp_init])   # the initial value is translated, not pinned
     for rule in ("r_comment", "r_newline", "r_message_field", "r_open_message_scope", "r_open_enum_scope",
                  "r_enum_field", "r_alias", "r_const", "r_option", "r_array_type", "r_dotted_identifier"):
         vals = [n.value.value for n in gram.body if isinstance(n, ast.Assign) and n.targets[0].id == rule]  # type: ignore
